@@ -496,3 +496,200 @@ func c13ManagerFromUpdatedConfig(c *Ctx) {
 		c.Unresolved("C13.R7", "rebuild of the TLS manager in the update branch of AddOrUpdateListener")
 	}
 }
+
+// ---------------------------------------------------------------------------------------------
+// C13.R5, clauses on the ALPN fallback that do not depend on where the test is written.
+//
+// "When no context's names match, the first context - in configuration order - whose ALPN list shares a protocol with
+// the client's list is used." Two structural necessary conditions:
+//   alpn-whole-list      every MatchedALPN test is given the client's whole protocol list (ClientHelloInfo.SupportedProtos,
+//                        possibly handed down through a parameter): testing one protocol at a time makes the *client's*
+//                        preference order decide, not the configuration order;
+//   alpn-context-order   the tested provider is the element of serverContextManager.providers of the one loop around the
+//                        test; the test sits in exactly one loop (a second, outer loop re-orders the candidates).
+type alpnSite struct {
+	fn   *ssa.Function
+	call ssa.CallInstruction
+}
+
+func c13ALPNCalls(c *Ctx, pkg string, gc *ssa.Function) []alpnSite {
+	reach := staticReach([]*ssa.Function{gc}, pkg)
+	var fns []*ssa.Function
+	for f := range reach {
+		fns = append(fns, f)
+	}
+	sort.Slice(fns, func(i, j int) bool { return fns[i].String() < fns[j].String() })
+	var out []alpnSite
+	for _, f := range fns {
+		for _, cs := range callsIn(f, false, func(cc *ssa.CallCommon) bool { return cc.IsInvoke() && cc.Method.Name() == "MatchedALPN" }) {
+			out = append(out, alpnSite{f, cs.Instr})
+		}
+	}
+	ord := ordCounter{}
+	for _, a := range out {
+		key := ord.next(a.fn, "alpn-whole-list")
+		okW, whyW := wholeProtoList(a.call.Common().Args[0], a.fn, reach, 0)
+		c.Check("C13.R5", key, a.call.Pos(), okW, "MatchedALPN is given the client's whole protocol list", "the ALPN test is applied to "+whyW+" instead of the client's whole protocol list: with one protocol tested at a time the client's preference order, not the configured order of the contexts, decides which certificate and client-auth policy are presented")
+		key2 := ord.next(a.fn, "alpn-context-order")
+		recv := a.call.Common().Value
+		elem := false
+		if u, ok := recv.(*ssa.UnOp); ok {
+			if ia, ok := u.X.(*ssa.IndexAddr); ok {
+				if _, f, _, okf := loadedField(ia.X); okf && f == "providers" {
+					elem = true
+				}
+			}
+		}
+		nLoops := 0
+		for _, body := range naturalLoops(a.fn) {
+			if body[a.call.Block()] {
+				nLoops++
+			}
+		}
+		c.Check("C13.R5", key2, a.call.Pos(), elem && nLoops == 1, "tested on the element of the one loop over the configured providers", fmt.Sprintf("the ALPN test is not made once per configured context in configuration order (element of providers: %v, enclosing loops: %d): the first context in configuration order that matches is no longer the one chosen", elem, nLoops))
+	}
+	return out
+}
+
+// wholeProtoList: v is ClientHelloInfo.SupportedProtos, or a parameter bound to it at every call site in the reach set.
+func wholeProtoList(v ssa.Value, fn *ssa.Function, reach map[*ssa.Function]bool, depth int) (bool, string) {
+	if depth > 4 {
+		return false, "a value that could not be traced"
+	}
+	switch x := v.(type) {
+	case *ssa.UnOp:
+		if _, f, _, ok := fieldAddrInfo(x.X); ok && f == "SupportedProtos" {
+			return true, ""
+		}
+	case *ssa.Slice:
+		return false, "a sub-slice of the list"
+	case *ssa.Parameter:
+		idx := -1
+		for i, p := range fn.Params {
+			if p == x {
+				idx = i
+			}
+		}
+		n := 0
+		for f := range reach {
+			for _, cs := range callsIn(f, true, func(cc *ssa.CallCommon) bool { return cc.StaticCallee() == fn }) {
+				n++
+				args := cs.Instr.Common().Args
+				if idx < 0 || idx >= len(args) {
+					return false, "a parameter that could not be traced"
+				}
+				if ok, why := wholeProtoList(args[idx], cs.Instr.Parent(), reach, depth+1); !ok {
+					return false, why
+				}
+			}
+		}
+		if n > 0 {
+			return true, ""
+		}
+		return false, "a parameter with no traced caller"
+	}
+	return false, "a derived value"
+}
+
+// c13SelectionHelperForm: the ALPN fallback is computed by a helper of the package that returns the chosen provider.
+func c13SelectionHelperForm(c *Ctx, gc *ssa.Function, sni ssa.Instruction, a alpnSite) {
+	fk := funcKey(gc)
+	h := a.fn
+	recv := a.call.Common().Value
+	// ready-first (both places)
+	readyGuard := func(at ssa.Instruction, recv ssa.Value) bool {
+		for _, g := range guardsAt(at.Block()) {
+			if call, ok := g.Cond.(*ssa.Call); ok && g.True && call.Common().IsInvoke() && call.Common().Method.Name() == "Ready" && call.Common().Value == recv {
+				return true
+			}
+		}
+		return false
+	}
+	sniRecv := sni.(ssa.CallInstruction).Common().Value
+	c.Check("C13.R5", fk+":ready-first", gc.Pos(), readyGuard(sni, sniRecv) && readyGuard(a.call, recv), "providers that are not ready are skipped before any matching", "a provider that is not ready can be matched")
+	// helper: first match returns that provider
+	first := false
+	for _, r := range refs(a.call.(ssa.Value)) {
+		if ifi, ok := r.(*ssa.If); ok {
+			for _, in := range ifi.Block().Succs[0].Instrs {
+				if ret, isR := in.(*ssa.Return); isR && len(ret.Results) >= 1 && stripIface(ret.Results[0]) == stripIface(recv) {
+					first = true
+				}
+			}
+		}
+	}
+	c.Check("C13.R5", fk+":first-alpn", a.call.Pos(), first, "the first provider whose ALPN test holds is returned at once", "the helper does not return the first provider whose ALPN test holds")
+	// the helper is consulted after the loop over all providers (every SNI test done), outside any loop
+	var hc ssa.CallInstruction
+	for _, cs := range callsIn(gc, false, func(cc *ssa.CallCommon) bool { return cc.StaticCallee() == h }) {
+		hc = cs.Instr
+	}
+	if hc == nil {
+		c.Fail("C13.R5", fk+":sni-wins", gc.Pos(), "the ALPN helper is not called directly by GetConfigForClient: the order of SNI and ALPN matching cannot be decided")
+		return
+	}
+	sniReturns := false
+	for _, r := range refs(sni.(ssa.Value)) {
+		if ifi, ok := r.(*ssa.If); ok {
+			if existsPathFrom(ifi.Block().Succs[0], func(in ssa.Instruction) bool { return in == ssa.Instruction(hc) }, isReturn) == nil {
+				sniReturns = true
+			}
+		}
+	}
+	c.Check("C13.R5", fk+":sni-wins", gc.Pos(), sniReturns && inLoop(sni.Block()) && !inLoop(hc.Block()) && !reachableFrom(hc.Block())[sni.Block()], "an SNI match returns immediately; ALPN is consulted only after every provider's names were tested", "an SNI match does not take precedence over ALPN")
+	// every return after the helper call that does not use its result is guarded by result == nil
+	hv := hc.(ssa.Value)
+	okOrder := true
+	for _, in := range instrsWhere(gc, isReturn) {
+		if !reachableFrom(hc.Block())[in.Block()] || in.Block() == hc.Block() {
+			continue
+		}
+		ret := in.(*ssa.Return)
+		uses := false
+		var walk func(v ssa.Value, d int)
+		walk = func(v ssa.Value, d int) {
+			if d > 6 || v == nil {
+				return
+			}
+			if v == hv {
+				uses = true
+			}
+			if call, ok := v.(*ssa.Call); ok {
+				if call.Common().IsInvoke() {
+					walk(call.Common().Value, d+1)
+				}
+				for _, x := range call.Common().Args {
+					walk(x, d+1)
+				}
+			}
+		}
+		walk(ret.Results[0], 0)
+		if uses {
+			continue
+		}
+		isNil := false
+		for _, g := range guardsAt(in.Block()) {
+			if bo, ok := g.Cond.(*ssa.BinOp); ok && isNilConst(bo.Y) && bo.X == hv {
+				if (bo.Op == token.NEQ && !g.True) || (bo.Op == token.EQL && g.True) {
+					isNil = true
+				}
+			}
+		}
+		if !isNil {
+			okOrder = false
+		}
+	}
+	c.Check("C13.R5", fk+":alpn-before-default", gc.Pos(), okOrder, "after the helper the default is used only when it found nothing", "the default provider can be chosen although an ALPN match exists")
+	// default = first ready
+	okDef := false
+	for _, b := range gc.Blocks {
+		if ifi, ok := b.Instrs[len(b.Instrs)-1].(*ssa.If); ok && inLoop(b) {
+			if bo, ok := ifi.Cond.(*ssa.BinOp); ok && bo.Op == token.EQL && isNilConst(bo.Y) {
+				if _, isPhi := bo.X.(*ssa.Phi); isPhi && strings.HasSuffix(bo.X.Type().String(), "TLSProvider") {
+					okDef = true
+				}
+			}
+		}
+	}
+	c.Check("C13.R5", fk+":default-is-first-ready", gc.Pos(), okDef, "the default is recorded only while none is recorded: the first ready provider", "the default provider is not the first ready one")
+}
